@@ -299,4 +299,5 @@ func retainFacts(pkgs []*packages.Package, b *strings.Builder) {
 	sort.Strings(gl)
 	fmt.Fprintf(b, "/-- C10: byte-slice arguments of `go` statements that are not an evident copy (function:go callee(argument)), sorted -/\ndef goAliasArgs : List String := [\n  %s]\n\n", strings.Join(gl, ",\n  "))
 	fmt.Fprintf(b, "/-- C10: sites that store a byte-slice value into a field / record / map element WITHOUT an evident copy\n    (function:target), sorted -/\ndef aliasSites : List String := [\n  %s]\n\n", strings.Join(l, ",\n  "))
+	provFacts(pkgs, b) // F11: the provenance site table (prov.go)
 }
